@@ -158,7 +158,11 @@ def _transfer(ctx, line, src, body_len, sf, wbit, corrupt=None, via="send_messag
     blocks, err = check_trace(trace)
     ctx.count("oracle.trace_blocks", len(blocks))
     tw = {**wit, "trace": [(d, b[:6].hex() + (f"..({len(b)})" if len(b) > 6 else "")) for _, d, b in trace][:24]}
-    if err:
+    if err and length_byte_hit and len(blocks) >= corrupt[0]:
+        # a corrupted length byte makes the bytes on the line something other than a block (the receiver takes fewer or waits
+        # for more bytes); what the two ends exchange after that point is not governed by the property
+        ctx.count("trace.after_length_byte_corruption_not_judged")
+    elif err:
         ctx.violation("line-trace-violates-handshake", {**tw, "error": err})
     if corrupt is None:
         ctx.count(f"transfer.clean.{'host_to_equipment' if src == 'H' else 'equipment_to_host'}")
